@@ -72,7 +72,7 @@ def cases(seed, tier):
         g = gen.Gen(rng, max_depth=rng.choice([3, 4, 5, 6]), multiline=rng.random() < 0.3, reserved=reserved,
                     long_literals=rng.random() < 0.3)
         code = g.program()
-        cfg = gen.rand_config(rng, force_full=rng.random() < 0.4)
+        cfg = gen.rand_config(rng, force_full=rng.random() < 0.4, prefix=None if (reserved is None and rng.random() < 0.15) else "p")
         out.append({"name": "rnd/%d" % i, "code": code, "config": cfg})
     # totality (C13): token-level mutations of valid programs, token soup, odd file names
     toks = ["(", ")", "{", "}", "[", "]", ";", ",", ".", "?.", "...", "=>", "=", "+=", "+", "`", "${", "'", '"', "/",
